@@ -132,6 +132,30 @@ def named():
                                    [('class', 2, [], [], [], [('def', 3, [('arg', 4, None, None)], [], None, [X(5)]),
                                                               ('call', 6)])]), ('call', 7)],
         'a method of a class defined inside a function reads a parameter of that function', ties=[[0, 7], [3, 6], [1, 5]])
+    add('if_test_comp_walrus', [A(0), ('if', [('comp', 'list', [([1], R(2), [])], R(3)), ('w', 4, [])], [X(5)], [X(6)]), X(7)],
+        'if test with a comprehension followed by a walrus', ties=[[0, 2], [1, 3], [4, 5, 6, 7]])
+    add('elif_test_comp_walrus', [('if', [], [('pass',)], [('if', [('comp', 'gen', [([0], [], [])], [('w', 1, R(2))])],
+                                                           [X(3)], [])]), X(4)], ties=[[0, 2], [1, 3, 4]])
+    add('def_first_decorated_class', [('def', 0, [('arg', 1, None, None)], [], None,
+                                       [('class', 2, [], [], [R(3)], [('pass',)]), X(4)]), ('call', 5)],
+        'parameter read in the decorator of a class that is the first statement of the function', ties=[[0, 5], [1, 3], [2, 4]])
+    add('def_first_decorated_def', [('def', 0, [('arg', 1, None, None)], [], None,
+                                     [('def', 2, [], [R(3)], None, [('pass',)]), X(4)]), ('call', 5)],
+        ties=[[0, 5], [1, 3], [2, 4]])
+    add('except_name_local', [A(0), ('def', 1, [], [], None,
+                                     [('try', [X(2)], [(None, 3, [('pass',)])], [X(4)], []), X(5)]), ('call', 6)],
+        'the name of an except clause is a local of the function, also outside the handler',
+        ties=[[0, 2, 3, 4, 5], [1, 6]])
+    add('global_in_nested_nomod', [('def', 0, [], [], None,
+                                    [A(1), ('def', 2, [], [], None, [('global', [3]), X(4)]), ('call', 5), X(6)]), ('call', 7)],
+        'global declared in a nested function, bound only by the enclosing function, never by the module',
+        ties=[[0, 7], [2, 5], [1, 3, 4, 6]])
+    add('global_in_bare_nested', [A(0), ('def', 1, [], [], None,
+                                         [A(2), ('def', 3, [], [], None, [('global', [4]), X(5)]), ('call', 6)]), ('call', 7)],
+        'the nested function has no locals and no parameters', ties=[[1, 7], [3, 6], [0, 2, 4, 5]])
+    add('assign_walrus_value', [A(0), A(1), ('assign', 'simple', [2], [('w', 3, [('r', 4)]), ('r', 5)]), X(6), X(7)],
+        'a walrus nested in the value of an assignment on one line, read again in the same value',
+        ties=[[0, 4], [3, 5, 7], [2, 6]])
     add('comp_in_class', [('class', 0, [], [], [], [A(1), ('expr', [('comp', 'list', [([2], R(3), [])], R(4))])])])
     return S
 
